@@ -16,7 +16,7 @@ import (
 
 // C20 — metadata paths and descriptors round-trip (E2: exhaustive product over small alphabets).
 
-var c20alphabet = []rune{'a', 'Z', '7', '-', '_', '.', '/', ' ', 'é', '‐', '‿'}
+var c20alphabet = []rune{'a', 'Z', '7', '-', '_', '.', '/', ' ', 'é', '‐', '‿', '€', 'א'} // the last two: a non-ASCII symbol (not a letter) and a letter whose UTF-8 lead byte is not a Latin-1 letter
 
 func c20strings(maxLen int, alphabet []rune) []string {
 	out := []string{""}
@@ -87,7 +87,7 @@ func TestC20(t *testing.T) {
 	if !lib.Thorough() {
 		maxLen = 2
 	}
-	rep.Rule = fmt.Sprintf("every string of length <=%d over {a,Z,7,-,_,.,/,space,é,U+2010,U+203F} as repo/label/context/split name; 3 KSUIDs; indices {0,1,9,10,999,1000,2^31,2^32,2^63-1,2^63,2^64-1}: every builder -> GetArchivePathComponents round trip, consumable paths, injectivity over all generated paths, validation vs the documented alphabet predicate, IsGeneratedFile over all <=3-component paths, YAML round trip of the product of representative field values of the 7 descriptor types; distinct = distinct paths / names / descriptors", maxLen)
+	rep.Rule = fmt.Sprintf("every string of length <=%d over {a,Z,7,-,_,.,/,space,é,U+2010,U+203F,U+20AC (a symbol),U+05D0 (a Hebrew letter)} as repo/label/context/split name; 3 KSUIDs; indices {0,1,9,10,999,1000,2^31,2^32,2^63-1,2^63,2^64-1}: every builder -> GetArchivePathComponents round trip, consumable paths, injectivity over all generated paths, validation vs the documented alphabet predicate, IsGeneratedFile over all <=3-component paths, YAML round trip of the product of representative field values of the 7 descriptor types; distinct = distinct paths / names / descriptors", maxLen)
 	all := c20strings(maxLen, c20alphabet)
 
 	// ---- validation
